@@ -241,23 +241,20 @@ def Reader.itemHeader (r : Reader) (index : Nat) : Outcome (Int × Int) :=
         | a :: b :: _ => .ok (a, b)
         | _ => .panic "item_header: [..2]"
 
-/-- which variant of `Reader::check` is modelled: `false` = the code before the D13 repair -/
-def fixedD13 : Bool := false
-
-/-- first block of `check`: the item type table -/
+/-- first block of `check`: the item type table (after the D13 repair: `start` is compared with
+the expected start before it is subtracted from `num_items`) -/
 def checkTypes (numItems : Int) : List ItemType → Int → Option Int → List Int → Outcome Unit
   | [], expected, _, _ => if expected ≠ numItems then .err .malformed else .ok ()
   | t :: ts, expected, prev, seen =>
     if ¬ (0 ≤ t.typeId ∧ t.typeId < 65536) then .err .malformed
     else if (match prev with | some p => decide (¬ (t.typeId > p)) | none => false) then .err .malformed
-    else if fixedD13 && decide (t.start ≠ expected) then .err .malformed
+    else if t.start ≠ expected then .err .malformed
     else if t.num < 0 then .err .malformed
     else
       match subI32 numItems t.start with
       | none => .panic "check: num_items - t.start"
       | some d =>
         if t.num > d then .err .malformed
-        else if t.start ≠ expected then .err .malformed
         else
           match addI32 expected t.num with
           | none => .panic "check: expected_start += t.num"
@@ -265,7 +262,8 @@ def checkTypes (numItems : Int) : List ItemType → Int → Option Int → List 
             if seen.contains t.typeId then .err .malformed
             else checkTypes numItems ts e' (some t.typeId) (seen ++ [t.typeId])
 
-/-- second block of `check`: `n` iterations left, `i` the item index, `offset` the running offset -/
+/-- second block of `check`: `n` iterations left, `i` the item index, `offset` the running offset
+(after the D13 repair: a size that is not a multiple of four is `Malformed`) -/
 def checkItems (r : Reader) : Nat → Nat → Nat → Outcome Unit
   | 0, _, offset => if offset ≠ asUsize r.sizeItems then .err .malformed else .ok ()
   | n + 1, i, offset =>
@@ -281,7 +279,7 @@ def checkItems (r : Reader) : Nat → Nat → Nat → Outcome Unit
         | .err e => .err e
         | .ok (_, size) =>
           if size < 0 then .err .malformed
-          else if fixedD13 && decide (asUsize size % 4 ≠ 0) then .err .malformed
+          else if asUsize size % 4 ≠ 0 then .err .malformed
           else if offset + 8 + asUsize size > asUsize r.sizeItems then .err .malformed
           else checkItems r n (i + 1) (offset + 8 + asUsize size)
 
